@@ -289,3 +289,47 @@ func tail(s string, n int) string {
 	}
 	return s
 }
+
+// Handler serves one task inside an instrumented binary.
+type Handler func(t Task) (*Result, map[uint64]struct{})
+
+// SubMain is the entry of an instrumented tool binary: `<bin> <check> ... --task f --result f`.
+// It does not use the flag package (the tools under test register their own flags on it).
+func SubMain(handlers map[string]Handler) {
+	args := os.Args
+	if len(args) < 2 {
+		fmt.Fprintln(os.Stderr, "instrumented binary: missing check id")
+		os.Exit(2)
+	}
+	id := args[1]
+	var taskFile, resultFile string
+	for i := 2; i+1 < len(args); i++ {
+		switch args[i] {
+		case "--task":
+			taskFile = args[i+1]
+		case "--result":
+			resultFile = args[i+1]
+		}
+	}
+	h, ok := handlers[id]
+	if !ok || taskFile == "" || resultFile == "" {
+		fmt.Fprintln(os.Stderr, "instrumented binary: bad invocation", args)
+		os.Exit(2)
+	}
+	b, err := os.ReadFile(taskFile)
+	if err != nil {
+		fmt.Fprintln(os.Stderr, err)
+		os.Exit(2)
+	}
+	var t Task
+	if err := json.Unmarshal(b, &t); err != nil {
+		fmt.Fprintln(os.Stderr, err)
+		os.Exit(2)
+	}
+	res, states := h(t)
+	if err := WriteResult(resultFile, res, states); err != nil {
+		fmt.Fprintln(os.Stderr, err)
+		os.Exit(2)
+	}
+	os.Exit(0)
+}
